@@ -13,6 +13,21 @@ def prog(cps, encoded):
     return {"prog": [{"op": "ctor", "s": cps, "encoded": encoded}], "fields": FIELDS}
 
 
+# characters outside ASCII that a case mapping (lower / upper / casefold, re.IGNORECASE) or a compatibility mapping (NFKC) turns
+# into a scheme character or a delimiter: KELVIN SIGN, LONG S, dotted / dotless i, fullwidth and small-form delimiters and letters,
+# ACCOUNT OF (a/c), superscript and Arabic-Indic digits
+LOOKALIKES = ["\u212a", "\u017f", "\u0130", "\u0131", "\uff1a", "\ufe55", "\uff0f", "\uff20", "\uff03", "\uff1f", "\uff3b", "\uff3d",
+              "\uff48", "\uff21", "\u2100", "\u00b9", "\u0663", "\uff10"]
+
+
+def lookalike_strings():
+    """every look-alike in every structural position of a small URL"""
+    for c in LOOKALIKES:
+        for t in ("{}x:y", "htt{}://h/p", "a{}:p", "{}://h", "http{}//h/p", "http:{}{}h/p", "http://u{}h/p", "http://h{}80/p",
+                  "http://h:8{}/p", "http://h/p{}q", "http://h/p{}f", "http://{}::1]/", "//h{}p", "{}", "x{}"):
+            yield t.replace("{}", c)
+
+
 def gen(params):
     mode = params["mode"]
     if mode == "file":
@@ -30,6 +45,10 @@ def gen(params):
                 "host", "Host.COM", "1.2.3.4", "a=1&b=2", "+", ";", "=", "&", "\\", "|", "^"]
         # every C0 control, DEL, C1 NEL, no-break space, Unicode line/paragraph separators, BOM
         toks += [chr(c) for c in range(0x21)] + ["\x7f", "\x85", "\xa0", "\u2028", "\u2029", "\ufeff", "\u3000"]
+        toks += LOOKALIKES
+        for s in lookalike_strings():
+            for enc in (False, True):
+                yield prog([ord(c) for c in s], enc)
         for _ in range(params["n"]):
             k = rnd.choice((2, 3, 4, 5, 6, 8, 10))
             s = "".join(rnd.choice(toks) for _ in range(k))
